@@ -393,6 +393,30 @@ def exhaustive_real(run: common.Run, max_nodes: int, report) -> int:
     return n
 
 
+@st.composite
+def random_tree(draw, max_nodes: int = 14, max_depth: int = 4):
+    """Larger trees than the exhaustive bound reaches (e.g. an `or` of two `and`s next to a sibling needs 9 nodes)."""
+    def build(depth: int, budget: List[int], force: bool = False) -> Any:
+        if depth >= max_depth or budget[0] <= 1 or (not force and draw(st.integers(0, 3)) == 0):
+            budget[0] -= 1
+            return ("leaf",)
+        conn = draw(st.sampled_from(["and", "or", "or", "not", "list"]))
+        k = draw(st.integers(1, 3))
+        budget[0] -= 1
+        kids = []
+        for _ in range(k):
+            if budget[0] <= 0:
+                break
+            # the operands of an `or` are connectives themselves half of the time (an or of ands next to a sibling is the classic regrouping case)
+            kids.append(build(depth + 1, budget, force=(conn == "or" and draw(st.booleans()))))
+        return (conn, kids or [("leaf",)])
+
+    t = number_leaves(build(0, [draw(st.integers(3, max_nodes))]), [0])
+    nl = sum(1 for _ in _leaves(t))
+    classes = [draw(st.sampled_from(CLASS_ORDER + ["atom", "atom"])) for _ in range(nl)]
+    return t, classes, draw(st.sampled_from(["connector", "yaml"]))
+
+
 def _parse_tree(s: str) -> Any:
     """Inverse of render_tree."""
     pos = [0]
@@ -435,6 +459,13 @@ def shard_campaign(run: common.Run) -> None:
     n = exhaustive_stub(run, 7, 4, run.fail, shard=(shard, 16))
     run.extra["exhaustive_stub_trees"] = n
 
+    def body(c):
+        t, classes, entry = c
+        if len(classes) <= 8:
+            check_stub_tree(run, t, classes, entry, run.hyp_fail)
+
+    common.drive(run, body, {"c": random_tree(18, 5)}, 1500, seed_salt=1)
+
 
 def main(run: common.Run) -> None:
     run.assumptions = [
@@ -455,6 +486,13 @@ def main(run: common.Run) -> None:
         run.extra["exhaustive_stub_trees"] = n
         run.extra["exhaustive_bound"] = "<= 5 nodes, depth <= 4"
         run.extra["real_trees"] = exhaustive_real(run, 3, run.fail)
+
+        def body(c):
+            t, classes, entry = c
+            if len(classes) <= 7:
+                check_stub_tree(run, t, classes, entry, run.hyp_fail)
+
+        common.drive(run, body, {"c": random_tree()}, 400, seed_salt=1)
     else:
         for s in common.run_sharded(run.pid, run.tier, run.seed, shard_campaign, 16, RULE):
             run.merge(s)
